@@ -157,6 +157,17 @@ CLAIMED = {
         "note": COMMON_NOTE + "The effect of the single *at call itself is the kernel's; equality of the resulting tree is judged by the snapshot oracle.",
         "technique": "Coq proof (path-split theorems for all byte strings, program equivalence) + snapshot differential against raw openat2 + trace replay",
     },
+    "C12": {
+        "text": "Machine-checked theorems over all kernel answers: mode bits outside 0o1777 are refused before any call; every mkdirat/openat "
+                "names one '/'-free component relative to a descriptor, opens forbid following except the verified procfs re-open; descriptors "
+                "balanced; no unknown panic. Runtime: whole-sandbox snapshots -- on success the handle equals the kernel's raw in-root resolution "
+                "of the path in the resulting tree, the new entries form exactly one chain of directories with mode&~umask (|setgid), nothing "
+                "else changed; on failure only one chain of directories was added; racing callers on equal/overlapping paths all succeed "
+                "with handles to the directories now at their paths.",
+        "note": COMMON_NOTE + "Partial: the functional post-condition ('exactly the missing directories') and convergence under races are "
+                "decided by the snapshot and racing runs (real scheduler), not by a theorem (no mutable FS model).",
+        "technique": "Coq proof (argument checks, discipline, balance; all responses) + snapshot differential against raw openat2 + racing callers + trace replay",
+    },
 }
 
 PENDING_REASON = "check not registered yet in this round (design in DESIGN.md §%s; being built)"
